@@ -234,6 +234,7 @@ func runC11(c *Ctx) {
 			c11Batches(c)
 		case "ta":
 			c11KeyLens(c)
+			c11LongKeys(c)
 			c11TierA(c)
 		}
 		return
@@ -248,6 +249,7 @@ func runC11(c *Ctx) {
 	c11Find(c)
 	c11Batches(c)
 	c11KeyLens(c)
+	c11LongKeys(c)
 	c11TierA(c)
 	c11Attempts(c)
 	c11Resets(c)
